@@ -22,6 +22,10 @@ class Note:
         if isinstance(ctx, dict) and "notes" in ctx: ctx["notes"].append(directive_args.get("t"))
         return await next_resolver(parent, args, ctx, info)
 
+def calls_of(calls, req):
+    """what the resolvers of one request received (coordinate, path, arguments), order-independent"""
+    return sorted(_msg(json.dumps([c["coord"], c["path"], c["args"]], sort_keys=True, default=str)) for c in calls if isinstance(c.get("ctx"), dict) and c["ctx"].get("req") == req)
+
 def explore(tier, seed):
     rng = random.Random(seed * 17 + 15)
     loop = asyncio.new_event_loop()
@@ -54,9 +58,10 @@ def explore(tier, seed):
             hub = MultiHub(1)
             engine_b.gate = hub.gate
             cx = {"req": 0, "tag": f"solo{idx}", "notes": []}
+            engine_b.calls.clear()
             (res,), _, _ = drive(loop, lambda: [engine_b.engine.execute(req[0], operation_name=req[1], variables=req[2], context=cx)], hub.hubs, lambda p: 0)
             engine_b.gate = None
-            return res + (sorted(map(str, cx["notes"])),)
+            return res + (sorted(map(str, cx["notes"])) + calls_of(engine_b.calls, 0),)
         solo_fresh = {}
         for i, req in enumerate(pool):
             r = solo(fresh, req)
@@ -83,7 +88,7 @@ def explore(tier, seed):
             pr = []
             diffs = []
             for j, i in enumerate(idxs):
-                got = (canon(results[j][1]) if results[j][0] == "ok" else f"raised {type(results[j][1]).__name__}") + "|notes=" + json.dumps(sorted(map(str, ctxs[j]["notes"])))
+                got = (canon(results[j][1]) if results[j][0] == "ok" else f"raised {type(results[j][1]).__name__}") + "|notes=" + json.dumps(sorted(map(str, ctxs[j]["notes"])) + calls_of(b.calls, j))
                 if got != solo_fresh[i]:
                     pr.append(f"request #{j} answered differently in flight with {n - 1} other request(s) than alone")
                     diffs.append({"request": j, "alone": solo_fresh[i], "in_flight": got})
